@@ -211,9 +211,34 @@ class Tr:
                 return f"(Z.mul {x[0]} {x[0]})", "Z"
             xq = self.coerce(x, "Q")
             return f"(Qmult {xq} {xq})", "Q"
+        # ---- (additive, C11) shape tuples: type "L" = list Z ----
+        if isinstance(n, ast.Tuple) and isinstance(n.ctx, ast.Load):
+            elts = [self.expr(e) for e in n.elts]
+            if all(t == "Z" for _, t in elts):
+                out = "nil"
+                for e, _ in reversed(elts):
+                    out = f"(cons {e} {out})"
+                return (out if elts else "(@nil Z)"), "L"
+        if isinstance(n, ast.Subscript):
+            v = self.expr(n.value)
+            if v[1] == "L":
+                sl = n.slice
+                if isinstance(sl, ast.Slice) and sl.upper is None and sl.step is None and isinstance(sl.lower, ast.Constant) and sl.lower.value == 1:
+                    return f"(Coq.Lists.List.tl {v[0]})", "L"
+                if isinstance(sl, ast.Constant) and isinstance(sl.value, int) and sl.value >= 0:
+                    return f"(Coq.Lists.List.nth {sl.value}%nat {v[0]} (0)%Z)", "Z"
+                if isinstance(sl, ast.UnaryOp) and isinstance(sl.op, ast.USub) and isinstance(sl.operand, ast.Constant) and sl.operand.value == 1:
+                    return f"(Coq.Lists.List.last {v[0]} (0)%Z)", "Z"
+        if isinstance(n, ast.Call) and isinstance(n.func, ast.Name) and n.func.id == "len" and len(n.args) == 1 and not n.keywords:
+            v = self.expr(n.args[0])
+            if v[1] == "L":
+                return f"(Z.of_nat (Coq.Lists.List.length {v[0]}))", "Z"
         raise TranslateError(f"unsupported expression: {key}")
 
     def cmp(self, op, a, b):
+        if a[1] == "L" and b[1] == "L" and op in (ast.Eq, ast.NotEq):   # (additive, C11)
+            e = f"(if Coq.Lists.List.list_eq_dec Z.eq_dec {a[0]} {b[0]} then true else false)"
+            return e if op is ast.Eq else f"(negb {e})"
         if a[1] == "bool" and b[1] == "bool" and op in (ast.Eq, ast.NotEq, ast.Is, ast.IsNot):
             e = f"(Bool.eqb {a[0]} {b[0]})"
             return e if op in (ast.Eq, ast.Is) else f"(negb {e})"
@@ -280,11 +305,15 @@ class Tr:
             return self.block(rest, outs, ret_type)
         if isinstance(s, ast.Pass):
             return self.block(rest, outs, ret_type)
+        if isinstance(s, ast.Raise) and outs is None and ret_type == "obool":   # (additive, C11) raise -> None
+            return "None"
         if isinstance(s, ast.Return):
             if outs is not None:
                 raise TranslateError("return inside a statement fragment")
             if s.value is None:
                 raise TranslateError("bare return")
+            if ret_type == "obool":   # (additive, C11)
+                return f"(Some {self.coerce(self.expr(s.value), 'bool')})"
             return self.coerce(self.expr(s.value), ret_type)
         if isinstance(s, ast.Assign):
             if len(s.targets) != 1:
@@ -345,7 +374,7 @@ class Tr:
         raise TranslateError(f"unsupported statement: {ast.unparse(s).splitlines()[0]}")
 
 
-COQ_TY = {"Z": "Z", "Q": "Q", "bool": "bool"}
+COQ_TY = {"Z": "Z", "Q": "Q", "bool": "bool", "L": "(list Z)", "obool": "(option bool)"}
 
 
 def translate_fragment(src_text: str, spec: dict) -> str:
